@@ -71,18 +71,26 @@ func algsForKind(kind string) []int {
 	return aeadAlgs
 }
 
-var hdrLabels = []string{"int:3", "int:2", "int:7", "int:10", "int:33", "int:-1", "int:256", "int:-65537", "t:78", "t:637573746f6d", "int:16", "i64:15", "u64:11"}
+var hdrLabels = []string{"int:3", "int:2", "int:7", "int:10", "int:33", "int:-1", "int:256", "int:-65537", "t:78", "t:637573746f6d", "int:16", "i64:15", "u64:11",
+	// text labels that print like integer labels of the same map: distinct CBOR keys
+	"t:37", "t:3130", "t:2d31", "t:33", "t:3333"}
 
 // genHdrTok: nil, or a header map; reserved labels (1 alg, 4 kid, 5 IV, 6 Partial IV) only when asked for
 func genHdrTok(r *rand.Rand, maxEntries int) string {
 	if r.Intn(3) == 0 {
 		return "nil"
 	}
+	if r.Intn(8) == 0 {
+		return "{ }" // present but empty: the bucket goes on the wire as h''
+	}
 	parts := []string{"{"}
 	seen := map[string]bool{}
 	for i := r.Intn(maxEntries + 1); i > 0; i-- {
 		l := hdrLabels[r.Intn(len(hdrLabels))]
 		norm := l[strings.IndexByte(l, ':')+1:]
+		if l[0] == 't' {
+			norm = "t" + norm
+		}
 		if seen[norm] {
 			continue
 		}
@@ -109,7 +117,7 @@ func genHdrTok(r *rand.Rand, maxEntries int) string {
 
 func payloadTok(r *rand.Rand, mode string, big bool) string {
 	switch mode {
-	case "typed":
+	case "typed", "gomap":
 		if r.Intn(10) == 0 {
 			return "nil"
 		}
@@ -160,7 +168,7 @@ type producedMsg struct {
 func buildProduce(r *rand.Rand, kind, mode string, payload, prot, unprot, ext string, keys []msgKey) *producedMsg {
 	recips := "r0"
 	if kind == "mac" || kind == "encrypt" {
-		recips = []string{"r1", "r2", "r1s", "r3s"}[r.Intn(4)]
+		recips = []string{"r1", "r2", "r1s", "r3s", "r1n", "r2n"}[r.Intn(6)]
 	}
 	var ks []string
 	for _, k := range keys {
@@ -196,7 +204,7 @@ func (p *producedMsg) pubKeys() []string {
 }
 
 func genOne(r *rand.Rand, kind string, big bool) *producedMsg {
-	mode := []string{"raw", "raw", "rawmsg", "typed"}[r.Intn(4)]
+	mode := []string{"raw", "raw", "rawmsg", "typed", "raw", "rawmsg", "typed", "gomap"}[r.Intn(8)]
 	algs := algsForKind(kind)
 	nkeys := 1
 	if kind == "sign" {
@@ -290,7 +298,7 @@ func tamperParts(r *rand.Rand, p *producedMsg) (kind string, data []byte, ext st
 	data = append([]byte{}, p.data...)
 	ext = p.ext
 	kind = p.kind
-	switch r.Intn(13) {
+	switch r.Intn(14) {
 	case 0, 1: // bit flip anywhere
 		i := r.Intn(len(data))
 		data[i] ^= 1 << uint(r.Intn(8))
@@ -316,6 +324,20 @@ func tamperParts(r *rand.Rand, p *producedMsg) (kind string, data []byte, ext st
 		data = retag(data, kind)
 	case 8, 9: // the authenticator (signature / tag / ciphertext) shortened, emptied or lengthened, well-formed CBOR kept
 		data = resizeAuth(r, data, p.kind)
+	case 12: // another encoding of an empty protected bucket (h'' <-> h'a0' / h'b800' / null): the authenticated bytes change
+		_, spans := topMembers(data)
+		if len(spans) > 0 {
+			item := data[spans[0][0]:spans[0][1]]
+			alt := [][]byte{{0x41, 0xa0}, {0x42, 0xb8, 0x00}, {0xf6}, {0x40}}
+			if c, ok := bstrContent(item); ok && (len(c) == 0 || (len(c) == 1 && c[0] == 0xa0)) {
+				n := alt[r.Intn(len(alt))]
+				if string(n) != string(item) {
+					data = replaceSpan(data, spans[0], n)
+				}
+			} else {
+				data = resizeAuth(r, data, p.kind)
+			}
+		}
 	case 11: // a label inside the body protected bucket changed (the value, e.g. the alg, stays): {1: alg} -> {10: alg}
 		_, spans := topMembers(data)
 		if len(spans) > 0 {
@@ -522,7 +544,12 @@ func history(r *rand.Rand, p *producedMsg) []string {
 		out = append(out, fmt.Sprintf("msg.reuse %s %s %s %s %s %s | %s", p.kind, p.mode, ext, hx(data), p.ext, hx(p.data), keys))
 	}
 	// the same key objects across produce and consume
-	out = append(out, "seq "+p.line+" ;; "+p.consumeLine(p.data, p.ext, p.pubKeys()))
+	if p.line != "" {
+		out = append(out, "seq "+p.line+" ;; "+p.consumeLine(p.data, p.ext, p.pubKeys()))
+	}
+	for len(out) < 3 {
+		out = append(out, out[0])
+	}
 	return out
 }
 
